@@ -59,7 +59,7 @@ def gen_op(rng, misc_ok=True, heavy=True):
         return "refresh"
     if r < 0.985:
         # emptied-but-allocated arrays and their re-filling
-        return rng.choice(["infoclr %d %d" % (rng.choice([0, 1, TPU, TNUMA]), rng.randint(0, 2)), "tinfoclr", "kinfoclr %d" % rng.randint(0, 1),
+        return rng.choice(["subtype %d %d %s" % (rng.choice([0, TPU, TNUMA]), rng.randint(0, 2), rng.choice(["-", "st1", "a%25b"])), "infoclr %d %d" % (rng.choice([0, 1, TPU, TNUMA]), rng.randint(0, 2)), "tinfoclr", "kinfoclr %d" % rng.randint(0, 1),
                            "kinfo %d %s %s" % (rng.randint(0, 1), rnd_name(rng), rnd_name(rng)), "udclr %d %d" % (rng.choice([0, TPU, TNUMA]), rng.randint(0, 3))])
     return "ud %d %d" % (rng.choice([0, TPU, TNUMA]), rng.randint(0, 3))
 
